@@ -152,6 +152,9 @@ func stripProbe(o map[string]any) map[string]any {
 
 // checkImage opens a crash image and checks: Open succeeds; the projection is one of the admissible
 // ones; opening the repaired directory again changes nothing; writing more and restarting loses nothing.
+// second: also crash during the recovery of this image (a sample of the images: it doubles their cost)
+var second bool
+
 func checkImage(live *eng.Runner, img, id, point string, admissible []map[string]any, res *crashOut) {
 	if _, err := os.Stat(img); err != nil {
 		// the hook point was never reached: an image that does not exist must not count as checked. Calls that
@@ -165,13 +168,48 @@ func checkImage(live *eng.Runner, img, id, point string, admissible []map[string
 	res.Images++
 	res.PointCounts[point]++
 	defer os.RemoveAll(img)
+	// a second crash DURING this recovery: images of the directory while Open is repairing it (after the scan and
+	// the truncation of a damaged tail, and after the reconstructed state was applied and stale arena files removed)
+	rec2 := map[string]string{}
+	if second {
+		verifhook.Set(func(name string, kv []any) {
+			if name == "replay.scanned" || name == "replay.applied" {
+				if _, done := rec2[name]; !done {
+					dst := img + "-during-" + name
+					if copyDir(img, dst) == nil {
+						rec2[name] = dst
+					}
+				}
+			}
+		})
+	}
 	c, err := live.CloneAt(img)
+	verifhook.Set(nil)
+	defer func() {
+		for _, d := range rec2 {
+			os.RemoveAll(d)
+		}
+	}()
 	if err != nil {
 		res.Divergences = append(res.Divergences, crashDiv{ID: id, Point: point, Kind: "open_failed", Detail: err.Error()})
 		return
 	}
 	defer c.Close()
 	obs := c.Observe()
+	for name, d2 := range rec2 {
+		res.Images++
+		res.PointCounts["recovery:"+name]++
+		c2, err := live.CloneAt(d2)
+		if err != nil {
+			res.Divergences = append(res.Divergences, crashDiv{ID: id, Point: point + "+" + name, Kind: "open_failed_after_crash_during_recovery", Detail: err.Error()})
+			continue
+		}
+		res.Checks++
+		if d := eng.Diff("obs", obs, c2.Observe()); len(d) > 0 {
+			res.Divergences = append(res.Divergences, crashDiv{ID: id, Point: point + "+" + name, Kind: "recovery_not_restartable", Diff: d})
+		}
+		c2.Close()
+	}
 	res.Checks++
 	if !member(obs, admissible) {
 		var diff []string
@@ -300,6 +338,7 @@ func runCrashCase(p eng.Profile, c crashCase, tornAll bool, res *crashOut) {
 		return
 	}
 	defer live.Close()
+	second = true
 	copyDir(live.Dir, img("now"))
 	if _, ok := points["op.journaled"]; ok {
 		checkImage(live, img("journaled"), c.ID, "op.journaled", c.Between, res)
@@ -338,6 +377,7 @@ func runCrashCase(p eng.Profile, c crashCase, tornAll bool, res *crashOut) {
 					continue
 				}
 				res.TornOffsets++
+				second = res.TornOffsets%9 == 0
 				// one call may journal several frames where the specification has one command (a delete and
 				// the GUNLINK records of its cascade): a torn LAST frame then leaves the call's first frames
 				// complete, and the replay redoes the rest -- any flushed-prefix outcome is admissible
@@ -346,6 +386,7 @@ func runCrashCase(p eng.Profile, c crashCase, tornAll bool, res *crashOut) {
 		}
 	}
 
+	second = true
 	// --- C. crash between the phases of SaveSnapshot ------------------------------------------------
 	live.ExtraHook = func(name string, kv []any) {
 		switch name {
